@@ -191,12 +191,16 @@ func (e *Engine) reach(v Value, objs map[interface{}]bool) {
 			e.reach(f, objs)
 		}
 	case *SliceV:
-		if objs[x.Arr] {
-			return
+		// the cells a slice can reach are [Off, Off+Cap), not only [Off, Off+Len); a zero-capacity window is no memory
+		cells := x.Arr.Val.(*StructV).F
+		for i := x.Off; i < x.Off+x.Cap && i < int64(len(cells)); i++ {
+			k := cellKey{x.Arr, i}
+			if objs[k] {
+				continue
+			}
+			objs[k] = true
+			e.reach(cells[i], objs)
 		}
-		objs[x.Arr] = true
-		// the whole backing array is shared state, not only [Off, Off+Len)
-		e.reach(x.Arr.Val, objs)
 	case *MapV:
 		if objs[x.M] {
 			return
@@ -217,6 +221,11 @@ func (e *Engine) reach(v Value, objs map[interface{}]bool) {
 			e.reach(f, objs)
 		}
 	}
+}
+
+type cellKey struct {
+	arr *Object
+	idx int64
 }
 
 func (e *Engine) disjoint(a, b Value) Value {
